@@ -12,4 +12,5 @@ Extraction "model.ml"
   (* FileWal *) trace crash recover walrev_fixed walrev_pinned well_positioned
   (* Raft *) Raft.init_default Raft.step Raft.run Raft.election_safety_b Raft.committed_agree_b
              Raft.leader_completeness_b Raft.double_vote_b Raft.stale_vote_b Raft.ack_diverged_b
-             Raft.old_term_commit_b Raft.ack_below_vote_b Raft.all_synced_b Raft.drain.
+             Raft.old_term_commit_b Raft.ack_below_vote_b Raft.all_synced_b Raft.drain
+  (* ExecSched *) ExecM.run.
